@@ -3,13 +3,13 @@ CONSTANTS
  N = 3
  T = 2
  NV = 1
- Cmds = {1, 2, 3}
- RepostAppends = TRUE
+ Cmds = {1, 2, 3, 4}
+ RepostAppends = FALSE
  Defect = "none"
  Honest = {1, 2}
  Args <- ArgsCore
  ByzReqs <- Byz3
- MaxByz = 1
+ MaxByz = 2
  Faults <- FApi
  MaxFault = 1
  Tampers <- TAll
@@ -20,7 +20,7 @@ CONSTANTS
  MaxChain = 0
  InitSt <- IActive
  Policy = "free"
-INVARIANTS Safety Robust
+INVARIANTS Safety Robust StoreDistinct EnoughIsEnough AnsweredOnlyAtThreshold
 PROPERTIES MCDeleteOnlyOwn MCRefusedNoEffect
 VIEW View
 CHECK_DEADLOCK FALSE
